@@ -43,7 +43,7 @@ type Prop struct{}
 func (Prop) ID() string { return "C09" }
 func (Prop) Size(tier string) int {
 	if tier == "thorough" {
-		return 3000000
+		return 15000000
 	}
 	return 60000
 }
